@@ -180,6 +180,8 @@ class FnTranslator:
             rd = n['referencedDecl']
             name = rd['name']
             if rd['kind'] == 'EnumConstantDecl':
+                if name in self.gen.consts:      # enumerators whose value the group supplied (c_<name> is defined in its output)
+                    return 'c_' + coq_id(name), Ty('int', 32, True)
                 raise Unsupported('enum const ' + name)
             if name in env:
                 return env[name]
